@@ -12,7 +12,9 @@ import (
 	_ "google.golang.org/protobuf/verifmc/checks/c10"
 	_ "google.golang.org/protobuf/verifmc/checks/c13"
 	_ "google.golang.org/protobuf/verifmc/checks/c14"
+	_ "google.golang.org/protobuf/verifmc/checks/c15"
 	_ "google.golang.org/protobuf/verifmc/checks/c16"
 	_ "google.golang.org/protobuf/verifmc/checks/c17"
 	_ "google.golang.org/protobuf/verifmc/checks/c30"
+	_ "google.golang.org/protobuf/verifmc/checks/refl"
 )
